@@ -295,6 +295,7 @@ pub fn exercise<T: Full>(name: &str, rng: &mut StdRng, sink: &mut crate::gen::Si
                 sink.put(json!({"fam":"typed","name":"alt","ty":name,"val":val,"bytes":bytes(&enc),"alt":bytes(&alt),"obs":dec}));
             }
         }
+        #[cfg(feature = "half")]
         if want == "sink" {
             // C13: this value through its own Encode impl into bounded sinks that are too small, exactly big enough, one byte larger
             let len = enc.len();
